@@ -95,6 +95,10 @@ func (a *Alpha) Enabled(s *State) []Event {
 		}
 		cur := TemplateTag(&e.Spec.Template)
 		for _, t := range a.Templates {
+			if t == "=" { // re-apply the current template unchanged (what an edit that only reorders map keys amounts to)
+				evs = append(evs, Event{K: "setTemplate", A: nn(e), B: cur, Dev: dev})
+				continue
+			}
 			if t != cur {
 				evs = append(evs, Event{K: "setTemplate", A: nn(e), B: t, Dev: dev})
 			}
